@@ -4,6 +4,7 @@ import (
 	"context"
 	"fmt"
 	"sync"
+	"sync/atomic"
 	"testing"
 	"time"
 
@@ -17,6 +18,7 @@ import (
 	"github.com/ava-labs/avalanchego/snow/validators"
 	"github.com/ava-labs/avalanchego/snow/validators/validatorstest"
 	"github.com/ava-labs/avalanchego/trace"
+	"github.com/ava-labs/avalanchego/utils/crypto/bls"
 	"github.com/ava-labs/avalanchego/utils/crypto/bls/signer/localsigner"
 	"github.com/ava-labs/avalanchego/utils/logging"
 	"github.com/ava-labs/avalanchego/vms/platformvm/warp"
@@ -33,11 +35,11 @@ var chainID = ids.Empty
 
 type dRules struct {
 	window int64
-	weight uint64
+	weight *atomic.Uint64 // per-producer pending weight limit; a scenario may lower it during the run
 }
 
 func (r dRules) GetValidityWindow() int64                     { return r.window }
-func (r dRules) GetMaxAccumulatedProducerChunkWeight() uint64 { return r.weight }
+func (r dRules) GetMaxAccumulatedProducerChunkWeight() uint64 { return r.weight.Load() }
 
 type dRuleFactory struct{ r dRules }
 
@@ -88,7 +90,15 @@ type faultPlan struct {
 	k         int
 	log       []string
 	other     []byte // bytes of some other valid chunk (for "wrong chunk" answers)
+	// stuck is closed when the requester keeps asking although it has received far more honest answers
+	// than any retry strategy needs (a busy retry loop never lets simulated time pass, so a time-out
+	// cannot catch it); from then on requests are never answered, which parks the requester
+	stuck     chan struct{}
+	stuckOnce sync.Once
 }
+
+// honestAnswersBound: honest answers after the last planned fault before the requester counts as stuck.
+const honestAnswersBound = 64
 
 const (
 	fHonest = iota
@@ -120,9 +130,16 @@ func (f *faultHandler) AppRequest(ctx context.Context, from ids.NodeID, deadline
 		b = f.plan.behaviour[f.plan.k]
 	}
 	f.plan.k++
-	f.plan.log = append(f.plan.log, fNames[b])
+	over := f.plan.stuck != nil && f.plan.k > len(f.plan.behaviour)+honestAnswersBound
+	if !over {
+		f.plan.log = append(f.plan.log, fNames[b])
+	}
 	other := f.plan.other
 	f.plan.mu.Unlock()
+	if over {
+		f.plan.stuckOnce.Do(func() { close(f.plan.stuck) })
+		select {} // never answered
+	}
 	wrap := func(chunkBytes []byte) []byte {
 		o, err := proto.Marshal(&pb.GetChunkResponse{Chunk: chunkBytes})
 		if err != nil {
@@ -163,6 +180,11 @@ type dNode struct {
 	ID      ids.NodeID
 	Storage *dsmr.ChunkStorage[dsmrtest.Tx]
 	Node    *dsmr.Node[dsmrtest.Tx]
+	// SigVerifier is the node's real handler logic for chunk signature requests (what a producer's
+	// request reaches); Signer/PK are the node's keys (a faulty producer signs chunks on its own)
+	SigVerifier dsmr.ChunkSignatureRequestVerifier[dsmrtest.Tx]
+	Signer      warp.Signer
+	PK          *bls.PublicKey
 	mu      sync.Mutex
 	blocks  map[ids.ID]dsmr.Block // accepted and verified blocks this node knows (its chain index)
 }
@@ -192,6 +214,7 @@ type netCfg struct {
 	Plan        *faultPlan   // faults on GetChunk answers
 	Genesis     dsmr.Block
 	PlanForNode int // only this node's chunk requests are faulted (-1: none)
+	Weight      *atomic.Uint64 // nil: no effective per-producer limit
 }
 
 func fixedKey(i int) (*localsigner.LocalSigner, error) {
@@ -215,9 +238,14 @@ func newNet(ctx context.Context, t *testing.T, cfg netCfg) ([]*dNode, error) {
 		sks[i] = sk
 		vals[i] = dsmr.Validator{NodeID: ids.BuildTestNodeID([]byte{byte(i + 1)}), Weight: 1, PublicKey: sk.PublicKey()}
 	}
-	rf := dRuleFactory{dRules{window: cfg.Window, weight: 1 << 40}}
+	if cfg.Weight == nil {
+		cfg.Weight = &atomic.Uint64{}
+		cfg.Weight.Store(1 << 40)
+	}
+	rf := dRuleFactory{dRules{window: cfg.Window, weight: cfg.Weight}}
 	type parts struct {
 		storage *dsmr.ChunkStorage[dsmrtest.Tx]
+		sigv    dsmr.ChunkSignatureRequestVerifier[dsmrtest.Tx]
 		get     p2p.Handler
 		sig     p2p.Handler
 		gossip  p2p.Handler
@@ -230,16 +258,18 @@ func newNet(ctx context.Context, t *testing.T, cfg netCfg) ([]*dNode, error) {
 		if err != nil {
 			return nil, err
 		}
+		sigv := dsmr.VerifNewChunkSignatureRequestVerifier[dsmrtest.Tx](verifier, st)
 		ps[i] = parts{
 			storage: st,
+			sigv:    sigv,
 			get:     dsmr.VerifNewGetChunkHandler[dsmrtest.Tx](st),
-			sig:     acp118.NewHandler(dsmr.VerifNewChunkSignatureRequestVerifier[dsmrtest.Tx](verifier, st), warp.NewSigner(sks[i], networkID, chainID)),
+			sig:     acp118.NewHandler(sigv, warp.NewSigner(sks[i], networkID, chainID)),
 			gossip:  dsmr.VerifNewChunkCertificateGossipHandler[dsmrtest.Tx](st),
 		}
 	}
 	nodes := make([]*dNode, cfg.N)
 	for i := range nodes {
-		dn := &dNode{ID: vals[i].NodeID, Storage: ps[i].storage, blocks: map[ids.ID]dsmr.Block{cfg.Genesis.GetID(): cfg.Genesis}}
+		dn := &dNode{ID: vals[i].NodeID, Storage: ps[i].storage, SigVerifier: ps[i].sigv, Signer: warp.NewSigner(sks[i], networkID, chainID), PK: vals[i].PublicKey, blocks: map[ids.ID]dsmr.Block{cfg.Genesis.GetID(): cfg.Genesis}}
 		getPeers, sigPeers, gossipPeers := map[ids.NodeID]p2p.Handler{}, map[ids.NodeID]p2p.Handler{}, map[ids.NodeID]p2p.Handler{}
 		for j := range nodes {
 			if i == j {
